@@ -10,7 +10,10 @@ Strictness (deliberate, see DESIGN.md section 4):
   `_revision` for an update and the planner never sends one for objects it believes new);
 * PATCH / POST / DELETE need the object; a group or service that a rule still refers to
   cannot be deleted; a rule may only refer to groups and services that exist;
-* `?action=remove` needs every address to be present, `?action=add` every address to be absent.
+* `?action=remove` needs every address to be present, `?action=add` every address to be absent;
+* an IP address expression never becomes empty (ASSUMPTION about the manager: `ip_addresses` of an
+  `IPAddressExpression` has `minItems: 1` in the NSX-T policy API; a PUT / PATCH with an empty list
+  and a `?action=remove` that would remove the last address are refused).
 -/
 namespace NA.Nsx
 
@@ -206,6 +209,7 @@ def exec (S : Store) : Call → Except String Store
     else .ok { S with services := S.services.filter (·.id != id) }
   | .putGroup id e t addrs =>
     if hasGroup S id then .error s!"PUT of existing group {id}"
+    else if addrs.isEmpty then .error s!"PUT of group {id} with an empty expression"
     else .ok { S with groups := S.groups ++ [⟨id, e, t, addrs⟩] }
   | .postAddrs gid e add addrs =>
     match findGroup S.groups gid with
@@ -217,6 +221,8 @@ def exec (S : Store) : Call → Except String Store
         else .ok { S with groups := setGroupAddrs S.groups gid fun g => { g with addrs := g.addrs ++ addrs } }
       else
         if !addrs.all (g.addrs.contains ·) then .error s!"POST remove of absent address from {gid}"
+        else if (g.addrs.filter (!addrs.contains ·)).isEmpty then
+          .error s!"POST remove would leave the expression of {gid} empty"
         else .ok { S with groups := setGroupAddrs S.groups gid fun g =>
                     { g with addrs := g.addrs.filter (!addrs.contains ·) } }
   | .patchExpr gid e t addrs =>
@@ -224,6 +230,7 @@ def exec (S : Store) : Call → Except String Store
     | none => .error s!"PATCH of missing group {gid}"
     | some g =>
       if g.exprId != e then .error s!"PATCH of missing expression {gid}/{e}"
+      else if addrs.isEmpty then .error s!"PATCH of {gid} with an empty expression"
       else .ok { S with groups := setGroupAddrs S.groups gid fun g => { g with rtype := t, addrs := addrs } }
   | .deleteGroup id =>
     if !hasGroup S id then .error s!"DELETE of missing group {id}"
